@@ -80,6 +80,7 @@ def check(P, R):
     R.rule('C09.d', 'shared containers written only per the frozen table', floor=2)
 
     check_init_dominance(P, R, 'C09.a')
+    check_error_objects_read_only(P, R, 'C09.c')
     # BaseResponse.__init__ resets all per-request fields
     bi = P.func(f'{RS}:BaseResponse.__init__')
     g = bi.cfg
@@ -218,6 +219,33 @@ def _reaches_unfreshened(f, d, name, rn):
     return g.can_reach(d.node, rn, avoid_nodes=[o for o in others if o is not d.node], avoid_edges=avoid_edges)
 
 
+def check_error_objects_read_only(P, R, rid):
+    """the error / response object an application method was handed (possibly one of the shared errors_map instances) is only read:
+    no attribute or item store goes through a parameter of the request-path methods of Ombott"""
+    app = P.cls(f'{OM}:Ombott')
+    n_ = 0
+    for name in sorted(E.REQUEST_PATH_APP_METHODS):
+        m = app.methods.get(name)
+        if m is None or isinstance(m.node, ast.Lambda):
+            continue
+        for st in walk_shallow(m.node):
+            tg = st.targets if isinstance(st, ast.Assign) else ([st.target] if isinstance(st, ast.AugAssign) else [])
+            for t in tg:
+                b = t
+                while isinstance(b, (ast.Attribute, ast.Subscript)):
+                    b = b.value
+                if isinstance(t, (ast.Attribute, ast.Subscript)) and isinstance(b, ast.Name) and b.id in m.params[1:] and b.id != 'environ':
+                    # only while the name still is the parameter (not re-bound to a fresh object)
+                    ns = m.cfg.node_of_stmt(st)
+                    if ns and all(d.kind == 'param' for d in m.rd.at(ns[0], b.id)):
+                        n_ += 1
+                        R.ob(rid, m, st, False, detail=
+                             f'`{short(st)}` writes into the object received as `{b.id}`: the errors in config.errors_map are single instances shared by all '
+                             f'requests, so what one request stores there (e.g. a JSON content type) is sent with later responses',
+                             why='nothing set while serving an earlier request may appear in a later response', key_extra=f'{name}:{b.id}')
+    R.ob(rid, app.fq, None, True, text=f'request-path methods of Ombott do not store into the objects they are handed ({n_} store(s) found)', nontrivial=False)
+
+
 def check_apply(P, R):
     f = P.func(f'{RS}:HTTPResponse.apply')
     g = f.cfg
@@ -349,11 +377,27 @@ def check_shared_writes(P, R, rid, strict=False, same_for_all_threads_ok=False, 
                 vals.extend(n.args)
                 vals.extend(k.value for k in n.keywords)
             carries = request_derived(f, vals, at) or w['kind'] == 'memo'
+            # a stateful object of the package parked in such a location is reused by later requests together with whatever state it is in
+            pooled = None
+            for v_ in vals:
+                for x_ in ast.walk(v_):
+                    if isinstance(x_, ast.Call):
+                        dn_ = dotted(x_.func) or ''
+                        r_ = P.resolve_name(f.module, dn_) if dn_ and dn_ != 'cls' else None
+                        k_ = r_[1] if r_ and r_[0] == 'class' else (f.owner_cls if dn_ == 'cls' else None)
+                        if k_ is not None and any(isinstance(s_, ast.Assign) and any(isinstance(t_, ast.Attribute) and isinstance(t_.value, ast.Name) and t_.value.id == 'self'
+                                                                                     for t_ in s_.targets)
+                                                  for m_ in k_.methods.values() if m_.name != '__init__' for s_ in walk_shallow(m_.node)):
+                            pooled = k_
+            carries = carries or pooled is not None
             resets = [g.node_of_stmt(x['node'])[0] for x in ws if x['func'] is f and x['target'] == w['target']
                       and x['kind'] in ('call:clear', 'slice-assign', 'global-assign') and x is not w]
             scratch = bool(resets) and g.must_pass(g.entry, at, resets)
             ok = (not carries) or scratch
-            if not ok:
+            if not ok and pooled is not None:
+                detail = (f'an instance of {pooled.name} (whose methods keep state on self) is parked in {w["target"]} and reused for later requests: whatever a '
+                          f'request leaves in it (e.g. the expected continuation of a cut header terminator) is applied to the next request')
+            elif not ok:
                 detail = (f'request-derived data is written into {w["target"]} ({w["kind"]}), a location that outlives the request, '
                           f'without a preceding reset: it is visible to later requests and grows with the number of requests')
         elif not ok and same_for_all_threads_ok and _thread_independent_value(f, w['node']):
